@@ -242,6 +242,7 @@ static size_t ip;
 static int g_uid;
 static int g_depth;
 static bool g_nested, g_putback, g_recycled;
+static bool g_noDrain;              // "zz": destroy the queue with its pending events
 static long g_nNested, g_nPutback, g_nNontrivial;
 
 static void evx(const char * e, int o, int a, int b, int r, int u)
@@ -443,6 +444,7 @@ static bool step()
 	else if(k == "tk") { peekOrTake(true); }
 	else if(k == "cl") { q->clearEvents(); evx("cl", 0, 0, 0, 0, 0); }
 	else if(k == "eq") { bool r = q->emptyQueue(); evx("eq", 0, 0, 0, r ? 1 : 0, 0); }
+	else if(k == "zz") { g_noDrain = true; evx("zz", 0, 0, 0, 0, 0); }
 #endif
 	else if(k == "t" || k == "pt" || k == "ft" || k == "ct" || k == "x") { /* a return item with no user code running: ignore */ }
 	else { std::fprintf(stderr, "unknown op %s\n", k.c_str()); std::exit(2); }
@@ -462,12 +464,14 @@ static void epilogue()
 		dispatch(e, 5);
 	}
 #if W_OBJ == 1
-	{ bool r = q->emptyQueue(); evx("eq", 0, 0, 0, r ? 1 : 0, 0); }
-	peekOrTake(false);
-	process(2);
-	process(1);
-	{ bool r = q->emptyQueue(); evx("eq", 0, 0, 0, r ? 1 : 0, 0); }
-	process(1);
+	if(! g_noDrain) {
+		{ bool r = q->emptyQueue(); evx("eq", 0, 0, 0, r ? 1 : 0, 0); }
+		peekOrTake(false);
+		process(2);
+		process(1);
+		{ bool r = q->emptyQueue(); evx("eq", 0, 0, 0, r ? 1 : 0, 0); }
+		process(1);
+	}
 #endif
 	const int n = (int)H.size();
 	for(int h = 1; h <= n; ++h) {
@@ -545,7 +549,7 @@ int main(int argc, char ** argv)
 		std::memset(g_storage2, W_FILL, sizeof(g_storage2));
 		q2 = new (g_storage2) Q();
 		R[1].reset(new SR(*q)); RT[1] = 1;
-		ip = 0; g_uid = 0; g_depth = 0; g_nested = false;
+		ip = 0; g_uid = 0; g_depth = 0; g_nested = false; g_noDrain = false;
 		while(ip < script.size()) step();
 		epilogue();
 		if(g_nested) { ++g_nNested; ++g_nNontrivial; }
